@@ -69,25 +69,34 @@ def bookE (d ct : Nat) (as : List Nat) : Obs := (balObs (.erc ct) E).add (supply
 theorem bookE_sound (d ct : Nat) (as : List Nat) : (bookE d ct as).Sound :=
   add_sound (balObs_sound _ _) (neg_sound (supplySum_sound _))
 
-theorem bookE_convertCoinU_same (d ct : Nat) (as : List Nat) (hn : (d :: as).Nodup) (s r n : Nat) :
-    (bookE d ct as).flowDelta (convertCoinU .externalOwned d ct (.user s) (.user r) n) = 0 := by
-  simp [bookE, convertCoinU, Obs.flowDelta, Obs.add, Obs.neg, balObs, E, supplySum_delta_burn_coin _ hn]
+/-- coin → ERC-20 of the pair itself releases exactly the tokens whose coins are burned — PROVIDED the receiver is not the
+module account itself (then the release is a self-transfer, the coins are burned all the same and the escrow exceeds the
+supply by `n`): this is what the blocked-receiver guard of `MintingEnabled` is for -/
+theorem bookE_convertCoinU_same (d ct : Nat) (as : List Nat) (hn : (d :: as).Nodup) (s : Nat) (r : Addr) (hr : r ≠ E) (n : Nat) :
+    (bookE d ct as).flowDelta (convertCoinU .externalOwned d ct (.user s) r n) = 0 := by
+  have hr' : ¬ r = Addr.erc20Mod := hr
+  simp [bookE, convertCoinU, Obs.flowDelta, Obs.add, Obs.neg, balObs, E, supplySum_delta_burn_coin _ hn, hr']
   omega
 
+/-- without the guard: the module account as receiver leaves the escrow `n` above the supply -/
+theorem bookE_convertCoinU_to_module (d ct : Nat) (as : List Nat) (hn : (d :: as).Nodup) (s n : Nat) :
+    (bookE d ct as).flowDelta (convertCoinU .externalOwned d ct (.user s) E n) = (n : Int) := by
+  simp [bookE, convertCoinU, Obs.flowDelta, Obs.add, Obs.neg, balObs, E, supplySum_delta_burn_coin _ hn]
+
 theorem bookE_convertCoinU_other (d ct d' ct' : Nat) (as : List Nat) (hn : (d :: as).Nodup) (k : Kind)
-    (hd : d' ∉ d :: as) (hc : ct' ≠ ct) (s r n : Nat) :
-    (bookE d ct as).flowDelta (convertCoinU k d' ct' (.user s) (.user r) n) = 0 := by
+    (hd : d' ∉ d :: as) (hc : ct' ≠ ct) (s : Nat) (r : Addr) (n : Nat) :
+    (bookE d ct as).flowDelta (convertCoinU k d' ct' (.user s) r n) = 0 := by
   cases k <;>
     simp [bookE, convertCoinU, Obs.flowDelta, Obs.add, Obs.neg, balObs, E, supplySum_delta_burn_coin _ hn, hd, hc]
 
-theorem bookE_convertERC20U_same (d ct : Nat) (as : List Nat) (hn : (d :: as).Nodup) (s r n : Nat) :
-    (bookE d ct as).flowDelta (convertERC20U .externalOwned d ct (.user s) (.user r) n) = 0 := by
+theorem bookE_convertERC20U_same (d ct : Nat) (as : List Nat) (hn : (d :: as).Nodup) (s : Nat) (r : Addr) (n : Nat) :
+    (bookE d ct as).flowDelta (convertERC20U .externalOwned d ct (.user s) r n) = 0 := by
   simp [bookE, convertERC20U, Obs.flowDelta, Obs.add, Obs.neg, balObs, E, supplySum_delta_mint_coin _ hn]
   omega
 
 theorem bookE_convertERC20U_other (d ct d' ct' : Nat) (as : List Nat) (hn : (d :: as).Nodup) (k : Kind)
-    (hd : d' ∉ d :: as) (hc : ct' ≠ ct) (s r n : Nat) :
-    (bookE d ct as).flowDelta (convertERC20U k d' ct' (.user s) (.user r) n) = 0 := by
+    (hd : d' ∉ d :: as) (hc : ct' ≠ ct) (s : Nat) (r : Addr) (n : Nat) :
+    (bookE d ct as).flowDelta (convertERC20U k d' ct' (.user s) r n) = 0 := by
   cases k <;>
     simp [bookE, convertERC20U, Obs.flowDelta, Obs.add, Obs.neg, balObs, E, supplySum_delta_mint_coin _ hn, hd, hc]
 
@@ -210,43 +219,31 @@ theorem bookE_stepU (s s' : UState) (hi : IdxInv s.idx) (id : PairId) (p : Pair)
       rw [this] at hr; cases hr
   cases op with
   | convertCoin d u r n =>
-    simp only [stepU] at h
-    split at h; · cases h
-    rename_i p' hme
-    obtain ⟨id', hl', hp'⟩ := pairByDenom_some (mintingEnabled_ok hme)
+    obtain ⟨p', hpd, hnb, hcase⟩ := stepU_convertCoin_ok s s' d u r n h
+    obtain ⟨id', hl', hp'⟩ := pairByDenom_some hpd
     have hd' : p'.denom = d := by
       obtain ⟨q, hq, hqd⟩ := hi.byDenom_ok _ _ hl'
       rw [hp'] at hq; cases hq; exact hqd
-    split at h
-    · cases h; simp [extDelta]
-    · simp only [UState.withLedger] at h
-      split at h
-      · rename_i L' hrun
-        cases h
-        rw [runFlow_obs (bookE_sound _ _ _) _ _ _ hrun]
-        simp only [extDelta]
-        rcases pairs_eq_or_disjoint hi hp hp' with ⟨_, rfl⟩ | ⟨hnd, hnc⟩
-        · rw [← hd', hkind, bookE_convertCoinU_same _ _ _ hn]
-        · rw [bookE_convertCoinU_other _ _ _ _ _ hn _ (hnotin d (by rw [hl']; rfl) (hd' ▸ hnd)) hnc]
-      · cases h
+    -- the guard: a blocked address, in particular the module account itself, is never the receiver
+    have hrE : partyAddr r ≠ E := fun e => by rw [e] at hnb; cases hnb
+    simp only [extDelta]
+    rcases hcase with ⟨_, rfl⟩ | ⟨_, L', hrun, rfl⟩
+    · simp
+    · rw [runFlow_obs (bookE_sound _ _ _) _ _ _ hrun]
+      rcases pairs_eq_or_disjoint hi hp hp' with ⟨_, rfl⟩ | ⟨hnd, hnc⟩
+      · rw [← hd', hkind, bookE_convertCoinU_same _ _ _ hn _ _ hrE]
+      · rw [bookE_convertCoinU_other _ _ _ _ _ hn _ (hnotin d (by rw [hl']; rfl) (hd' ▸ hnd)) hnc]
   | convertERC20 ct u r n =>
-    simp only [stepU] at h
-    split at h; · cases h
-    rename_i p' hme
-    obtain ⟨id', hl', hp'⟩ := pairByErc_some (mintingEnabled_ok hme)
+    obtain ⟨p', hpe, _, hcase⟩ := stepU_convertERC20_ok s s' ct u r n h
+    obtain ⟨id', hl', hp'⟩ := pairByErc_some hpe
     obtain ⟨_, hden', _⟩ := hi.pairs_ok _ _ hp'
-    split at h
-    · cases h; simp [extDelta]
-    · simp only [UState.withLedger] at h
-      split at h
-      · rename_i L' hrun
-        cases h
-        rw [runFlow_obs (bookE_sound _ _ _) _ _ _ hrun]
-        simp only [extDelta]
-        rcases pairs_eq_or_disjoint hi hp hp' with ⟨_, rfl⟩ | ⟨hnd, hnc⟩
-        · rw [hkind, bookE_convertERC20U_same _ _ _ hn]
-        · rw [bookE_convertERC20U_other _ _ _ _ _ hn _ (hnotin _ (by rw [hden']; rfl) hnd) hnc]
-      · cases h
+    simp only [extDelta]
+    rcases hcase with ⟨_, rfl⟩ | ⟨_, L', hrun, rfl⟩
+    · simp
+    · rw [runFlow_obs (bookE_sound _ _ _) _ _ _ hrun]
+      rcases pairs_eq_or_disjoint hi hp hp' with ⟨_, rfl⟩ | ⟨hnd, hnc⟩
+      · rw [hkind, bookE_convertERC20U_same _ _ _ hn]
+      · rw [bookE_convertERC20U_other _ _ _ _ _ hn _ (hnotin _ (by rw [hden']; rfl) hnd) hnc]
   | convertDenom d u r n tgt =>
     simp only [stepU] at h
     split at h; · cases h
